@@ -5,6 +5,8 @@ from __future__ import annotations
 from ..nf import NF, Atom, Undecided, app, atoms_of, lift, nf_equal, single_atom, subst, sym
 from ..values import NONE, Cond, NoneV, Num, ObjV, StrV, TupleV, valkey
 from .common import (
+    mark,
+    mark_index,
     ABSTRACT_SUMMARIES,
     K,
     N,
@@ -75,6 +77,7 @@ def _adapter(ctx, modattr, width, cost_param, extra=None):
         state["obj"] = obj
         call_method(ex, obj, "fit", X)
         state["n_fit"] = len(ex.events)
+        mark(ex, "fit-done")
         return call_method(ex, obj, "evaluate", cuts)
 
     paths = run(ctx, ex, thunk)
@@ -234,6 +237,7 @@ def check_direct(ctx, pkg, name, width, specname):
         obj = ex.new_object(cls, [], {})
         call_method(ex, obj, "fit", X)
         state["n_fit"] = len(ex.events)
+        mark(ex, "fit-done")
         return call_method(ex, obj, "evaluate", cuts)
 
     paths = run(ctx, ex, thunk)
@@ -256,7 +260,7 @@ def check_direct(ctx, pkg, name, width, specname):
         shp = v.shape
         ok = shp is not None and len(shp) == 2 and nf_equal(lift(shp[0]), lift(K)) and nf_equal(lift(shp[1]), lift(Pdim))
         ctx.check(ok, "C06.b SHAPE-COLS", name, loc, "one row per cut, one column per variable", found=f"shape {shp}")
-        bm = [e for e in p.events[state["n_fit"]:] if e.kind == "broadcast_mismatch"]
+        bm = [e for e in p.events[mark_index(p, "fit-done"):] if e.kind == "broadcast_mismatch"]
         for e in bm:
             ctx.violation("C06.b SHAPE-COLS", name + "|broadcast", e.loc(), "a per-cut vector (k,) is broadcast against a (k,p) matrix", found=f"{e.data['left']} vs {e.data['right']}")
     _raise_kinds(ctx, paths, name, loc)
